@@ -268,6 +268,8 @@ def more(P):
                                          "upperbound < Fsum(self, lo, lo + span)",
                                          "old(upperbound) == Fsum(self, 0, lo) + upperbound"],
                               ghost_pre=["use(node_fold(self, 2 * idx, lo, span // 2))",
+                                         "use(node_fold(self, 2 * idx + 1, lo + span // 2, span // 2))",      # the right child's mass ...
+                                         "use(nonneg(self, lo + span // 2, lo + span))",                      # ... is non-negative
                                          "use(add_sum(self, lo, lo + span // 2, lo + span))",
                                          "use(add_sum(self, 0, lo, lo + span // 2))"],
                               ghost_post=["if idx % 2 == 0:\n    span = span // 2\nelse:\n    span = span // 2\n    lo = lo + span"],
